@@ -562,6 +562,9 @@ func (c *Context) onRestart(message *RestartMessage, behavior vivid.Behavior) {
 	// 发来的 OnKill 进入 killing 状态并正在等待子 Actor 结束。此时再接受重启会把终止悄悄变成重启，
 	// 发起终止的一方（例如等待其死亡的父级）将永远等不到 OnKilled。终止优先，忽略该重启。
 	if !atomic.CompareAndSwapInt32(&c.state, running, killing) {
+		if !message.Poison {
+			c.killChildrenWhileKilling(message.Reason)
+		}
 		return
 	}
 
@@ -603,9 +606,24 @@ func (c *Context) onKill(message *vivid.OnKill, behavior vivid.Behavior) {
 		if c.restarting != nil && atomic.LoadInt32(&c.state) == killing {
 			c.restarting = nil
 		}
+		if !message.Poison {
+			c.killChildrenWhileKilling(message.Reason)
+		}
 		return
 	}
 	c.doKill(message, behavior)
+}
+
+// killChildrenWhileKilling 在自身已处于终止过程（正在等待子 Actor 结束）时收到立即终止或立即重启的请求：请求本身被忽略，
+// 但其"立即"的语义需要传递给仍存活的子 Actor。否则，此前以优雅方式通知的子 Actor 若因故障被挂起（其终止请求排在
+// 挂起的邮箱中无法到达），监管者针对自身的立即停止/重启决定又被忽略，自身将永远等不到子 Actor 结束。
+func (c *Context) killChildrenWhileKilling(reason string) {
+	if atomic.LoadInt32(&c.state) != killing {
+		return
+	}
+	for _, child := range c.Children() {
+		c.Kill(child, false, reason)
+	}
 }
 
 func (c *Context) doKill(message *vivid.OnKill, behavior vivid.Behavior) {
